@@ -283,6 +283,32 @@ func TestUnicodeClassesRouteVsRoute(t *testing.T) {
 	})
 }
 
+// regression tier: the inputs of repaired defects (known_findings.json, status fixed)
+func TestFixedRegressions(t *testing.T) {
+	rec.Begin(t)
+	if rec.Shard() != 0 {
+		t.Skip("seed independent: shard 0 only")
+	}
+	l := func(r rune) *ref.Pat { return &ref.Pat{K: "lit", R: r} }
+	q := func(p *ref.Pat, form, n, m int) *ref.Pat {
+		x := &ref.Pat{K: "q", Subs: []*ref.Pat{p}}
+		gen.Quant(x, form, n, m)
+		return x
+	}
+	cat := func(s ...*ref.Pat) *ref.Pat { return &ref.Pat{K: "cat", Subs: s} }
+	grp := func(p *ref.Pat) *ref.Pat { return &ref.Pat{K: "grp", Subs: []*ref.Pat{p}} }
+	for _, p := range []*ref.Pat{
+		cat(q(l('a'), 1, 0, 0), q(l('b'), 1, 0, 0)),          // a*b*
+		q(l('a'), 3, 0, 0),                                     // a{0}
+		cat(l('a'), q(l('b'), 0, 0, 0), l('c')),                // ab?c
+		cat(l('a'), q(l('b'), 1, 0, 0), q(l('c'), 0, 0, 0), l('d')), // ab*c?d
+		q(grp(cat(q(l('a'), 1, 0, 0), l('b'))), 3, 2, 0),       // (a*b){2}
+		cat(grp(&ref.Pat{K: "alt", Subs: []*ref.Pat{q(l('a'), 1, 0, 0), l('b')}}), l('c')), // (a*|b)c
+	} {
+		run(t, p, "regression")
+	}
+}
+
 func TestReplay(t *testing.T) {
 	if !rec.IsReplay() {
 		t.Skip("not in replay mode")
